@@ -114,7 +114,13 @@ class C01(engine.Property):
         if rng.random() < 0.15:
             # a link class with value equality (== duplicates are allowed as distinct links)
             cfg["edge_classes"] = sorted(set(cfg["edge_classes"]) | {"BondEdge"})
-        if rng.random() < 0.12:
+        r = rng.random()
+        if r < 0.08:
+            cfg["vertex_classes"] = ["Vertex", "UnhashableVertex"]
+        elif r < 0.16:
+            # a subclass that presents its links in another order through the public view
+            cfg["vertex_classes"] = ["Vertex", "PriorityVertex"]
+        elif rng.random() < 0.12:
             # a vertex subclass whose remove_from_link override calls back into the library
             cfg["vertex_classes"] = ["Vertex", "HandoverVertex"]
             cfg["weights"]["mk_vertex"] = max(2, cfg["weights"].get("mk_vertex", 0))
